@@ -29,7 +29,7 @@ func init() { register("C04", runC04, replayC04) }
 // c04Parse runs one parser on one input; a panic is a violation. Returns the result.
 func c04Parse(r *core.Run, worker int, p adapt.Parser, in *Input) (adapt.Parsed, bool) {
 	var res adapt.Parsed
-	r.Begin(worker, func() string { return p.Name + " input=" + core.Hex(in.Bytes) })
+	r.Begin(worker, func() string { return p.Name + " input=" + core.HexFull(in.Bytes) })
 	panicked, msg, site := core.GuardSite(func() { res = p.Fn(in.Bytes) })
 	r.End(worker)
 	r.Evaluations.Add(1)
@@ -48,7 +48,7 @@ func c04Methods(r *core.Run, worker int, p adapt.Parser, in *Input, v any) {
 			r.Violate("C04|method-panic|"+o.Type+"."+o.Method+"|"+o.Site, fmt.Sprintf("(%s).%s(%s)%s panics on a value %s returned without error (%s %s; %s): %s", o.Type, o.Method, o.Args, via, p.Name, in.Class, in.Detail, in.Base, o.Msg), in.Case(p.Name))
 		}
 	}
-	r.Begin(worker, func() string { return "methods of value from " + p.Name + " input=" + core.Hex(in.Bytes) })
+	r.Begin(worker, func() string { return "methods of value from " + p.Name + " input=" + core.HexFull(in.Bytes) })
 	// mutating methods run last (second pass), so that e.g. AddAddress(nil) cannot poison the
 	// value the read-only methods are judged on
 	defer func() {
